@@ -5,11 +5,16 @@ import (
 	"fmt"
 	"os"
 	"path/filepath"
+	"runtime"
 	"sort"
 	"strings"
+	"sync/atomic"
 
+	"github.com/ipfs/go-cid"
 	"github.com/ipld/go-car/cmd/car/lib"
 	carv2 "github.com/ipld/go-car/v2"
+	"github.com/ipld/go-car/v2/blockstore"
+	"github.com/ipld/go-car/v2/index"
 
 	"verif/drv"
 	"verif/kit"
@@ -17,12 +22,32 @@ import (
 	"verif/refcar"
 )
 
-// C05Case is one finalized writing session.
+// C05Case is one finalized writing session (library front-end or CLI producer).
 type C05Case struct {
 	Roots  string   `json:"roots"`
 	Seq    []string `json:"seq"`
 	Opts   drv.Opts `json:"opts"`
 	Writer string   `json:"writer"`
+	// Plan is the call plan of the session ("p" = Put of the next block, "m<k>" = PutMany of the
+	// next k blocks, "|" = Finalize and resume); "" = one Put per block ("bsmany": one PutMany).
+	Plan string `json:"plan,omitempty"`
+	// Reads interleaves every read entry point of the front-end after each writing call.
+	Reads bool `json:"reads,omitempty"`
+	// CLI is set for the CLI producers (Writer = "cli").
+	CLI *C05CLI `json:"cli,omitempty"`
+}
+
+// C05CLI selects one run of a CLI producer.
+type C05CLI struct {
+	Cmd    string `json:"cmd"`              // create | filter | get-dag
+	V1     bool   `json:"v1,omitempty"`     // --version 1
+	Tree   string `json:"tree,omitempty"`   // create: source tree
+	NoWrap bool   `json:"nowrap,omitempty"` // create: --no-wrap
+	Cont   string `json:"cont,omitempty"`   // filter, get-dag: input container (v1, v2, v2pad, v2noidx)
+	Sel    string `json:"sel,omitempty"`    // filter: all | half | inverse | none
+	Append string `json:"append,omitempty"` // filter: --append onto this pre-existing layout
+	Start  string `json:"start,omitempty"`  // get-dag: "", root, sub, f1
+	Order  string `json:"order,omitempty"`  // get-dag: "", root-first
 }
 
 func modelCfg(o drv.Opts) model.Cfg {
@@ -102,6 +127,8 @@ func checkFinalized(x *kit.Ctx, file []byte, rootRaws [][]byte, nilRoots bool, s
 	}
 }
 
+var c05Verifies int64
+
 func clip(b []byte) []byte {
 	if len(b) > 160 {
 		return b[:160]
@@ -109,8 +136,23 @@ func clip(b []byte) []byte {
 	return b
 }
 
-// checkAccepted: the library's own inspection accepts, and its verifier when roots are stored.
-func checkAccepted(x *kit.Ctx, file []byte, rootRaws [][]byte, stored []refcar.Block, tag string) {
+// lookupKey is what the index codec keys a record by.
+func lookupKey(codec uint64, mhCode uint64, digest []byte) string {
+	if codec == refcar.CodecIndexSorted {
+		return fmt.Sprintf("%x", digest)
+	}
+	return fmt.Sprintf("%x:%x", mhCode, digest)
+}
+
+func offsetsString(l []uint64) string {
+	sort.Slice(l, func(i, j int) bool { return l[i] < l[j] })
+	return fmt.Sprint(l)
+}
+
+// checkAccepted: the library's own inspection accepts the file and reads the same header as
+// the reference decoder, the library's index reader resolves exactly the stored sections, and
+// its verifier accepts when every root is stored.
+func checkAccepted(x *kit.Ctx, file []byte, rootRaws [][]byte, stored []refcar.Block, storeID bool, tag string) {
 	rd, err := carv2.NewReader(bytes.NewReader(file))
 	if err != nil {
 		x.Fail("c05:inspect-open:"+tag, "NewReader rejects finalized file: %v", err)
@@ -123,6 +165,33 @@ func checkAccepted(x *kit.Ctx, file []byte, rootRaws [][]byte, stored []refcar.B
 	}
 	if st.BlockCount != uint64(len(stored)) {
 		x.Fail("c05:inspect-count:"+tag, "Inspect counts %d blocks, stored %d", st.BlockCount, len(stored))
+	}
+	// the library's reading of the file against the reference decoder's
+	var gotRoots [][]byte
+	for _, r := range st.Roots {
+		gotRoots = append(gotRoots, r.Bytes())
+	}
+	if !sameRoots(gotRoots, rootRaws) {
+		x.Fail("c05:inspect-roots:"+tag, "Inspect reports roots %x, the session's roots are %x", gotRoots, rootRaws)
+	}
+	f, derr := refcar.DecodeFile(file, false)
+	if derr == nil {
+		if st.Version != uint64(f.Version) {
+			x.Fail("c05:inspect-version:"+tag, "Inspect reports version %d, reference decoder %d", st.Version, f.Version)
+		}
+		if f.Version == 2 {
+			h := st.Header
+			if h.DataOffset != f.V2.DataOffset || h.DataSize != f.V2.DataSize || h.IndexOffset != f.V2.IndexOffset || h.Characteristics.IsFullyIndexed() != f.V2.FullyIndexed() {
+				x.Fail("c05:inspect-header:"+tag, "library reads header {data %d+%d index %d fully-indexed %v}, reference decoder {data %d+%d index %d fully-indexed %v}",
+					h.DataOffset, h.DataSize, h.IndexOffset, h.Characteristics.IsFullyIndexed(), f.V2.DataOffset, f.V2.DataSize, f.V2.IndexOffset, f.V2.FullyIndexed())
+			}
+			if f.HasIndex && uint64(st.IndexCodec) != f.IndexCodec {
+				x.Fail("c05:inspect-codec:"+tag, "Inspect reports index codec 0x%x, reference decoder 0x%x", uint64(st.IndexCodec), f.IndexCodec)
+			}
+		}
+		if f.Version == 2 && f.HasIndex {
+			checkLibraryIndex(x, file, rd, f, storeID, tag)
+		}
 	}
 	if len(rootRaws) == 0 {
 		return
@@ -143,129 +212,516 @@ func checkAccepted(x *kit.Ctx, file []byte, rootRaws [][]byte, stored []refcar.B
 		panic(err)
 	}
 	defer os.Remove(p)
-	if err := lib.VerifyCar(p); err != nil {
+	err = lib.VerifyCar(p)
+	// lib.VerifyCar never closes the second descriptor it opens (it is reclaimed by the
+	// os.File finalizer only); with the relaxed GC setting of the runner the descriptors of
+	// many small cases can outlive the process limit, so collect every so often
+	if atomic.AddInt64(&c05Verifies, 1)%1000 == 0 {
+		runtime.GC()
+	}
+	if err != nil {
 		x.Fail("c05:verify:"+tag, "VerifyCar rejects a finalized file whose roots are all stored: %v", err)
 	}
 }
 
-func runC05(c any, x *kit.Ctx) {
-	cs := c.(C05Case)
-	roots, rootRaws, nilRoots := kit.Roots(cs.Roots)
-	blks := kit.Bs(cs.Seq)
-	m := &model.Map{Cfg: modelCfg(cs.Opts)}
-	var wantErr []bool
-	deduped := false
-	for _, b := range blks {
-		r := m.Put(b)
-		wantErr = append(wantErr, r == model.PutTooLarge)
-		if r == model.PutSkipped {
-			deduped = true
+// checkLibraryIndex reads the written index with the library (index.ReadFrom + GetAll, and a
+// read-only blockstore on the file) and requires it to resolve exactly the stored sections.
+func checkLibraryIndex(x *kit.Ctx, file []byte, rd *carv2.Reader, f *refcar.File, storeID bool, tag string) {
+	ir, err := rd.IndexReader()
+	if err != nil {
+		x.Fail("c05:lib-index-open:"+tag, "IndexReader on the finalized file: %v", err)
+		return
+	}
+	idx, err := index.ReadFrom(ir)
+	if err != nil {
+		x.Fail("c05:lib-index-read:"+tag, "index.ReadFrom rejects the written index: %v", err)
+		return
+	}
+	if uint64(idx.Codec()) != f.IndexCodec {
+		x.Fail("c05:lib-index-codec:"+tag, "index.ReadFrom yields codec 0x%x, the file says 0x%x", uint64(idx.Codec()), f.IndexCodec)
+	}
+	wantBy := map[string][]uint64{}
+	for _, r := range refcar.RecordsOf(f.Payload, storeID) {
+		k := lookupKey(f.IndexCodec, r.MhCode, r.Digest)
+		wantBy[k] = append(wantBy[k], r.Offset)
+	}
+	ro, roErr := blockstore.NewReadOnly(bytes.NewReader(file), nil, carv2.UseWholeCIDs(true), carv2.StoreIdentityCIDs(storeID))
+	if roErr != nil {
+		x.Fail("c05:lib-open-readonly:"+tag, "blockstore.NewReadOnly rejects the finalized file: %v", roErr)
+	}
+	done := map[string]bool{}
+	for _, s := range f.Payload.Sections {
+		if s.Info.MhCode == refcar.MhIdentity && !storeID {
+			continue
+		}
+		if done[string(s.Cid)] {
+			continue
+		}
+		done[string(s.Cid)] = true
+		c, err := cid.Cast(s.Cid)
+		if err != nil {
+			panic(err)
+		}
+		var got []uint64
+		gerr := idx.GetAll(c, func(o uint64) bool { got = append(got, o); return true })
+		want := append([]uint64{}, wantBy[lookupKey(f.IndexCodec, s.Info.MhCode, s.Info.Digest)]...)
+		if gerr != nil || offsetsString(got) != offsetsString(want) {
+			x.Fail("c05:lib-index-getall:"+tag, "the library resolves CID %x through the written index to offsets %v (err %v), the stored sections with that key lie at %v", s.Cid, got, gerr, want)
+		}
+		if roErr == nil {
+			blk, err := ro.Get(drv.Ctx, c)
+			if err != nil {
+				x.Fail("c05:lib-get:"+tag, "read-only blockstore on the finalized file cannot Get stored CID %x: %v", s.Cid, err)
+			} else if !bytes.Equal(blk.RawData(), s.Data) {
+				x.Fail("c05:lib-get:"+tag, "read-only blockstore on the finalized file returns %x for stored CID %x, its section holds %x", clip(blk.RawData()), s.Cid, clip(s.Data))
+			}
 		}
 	}
+}
+
+// c05Expect is the model's expectation of one session.
+type c05Expect struct {
+	callErr []bool       // per writing call: an error is expected
+	cands   []*model.Map // possible final stores (more than one only after a refused PutMany)
+	gen1    *model.Map   // resumed kinds: the store at the end of the first generation
+	deduped bool
+}
+
+func cloneMap(m *model.Map) *model.Map {
+	return &model.Map{Cfg: m.Cfg, Stored: append([]kit.Blk{}, m.Stored...)}
+}
+
+func storedKey(m *model.Map) string {
+	var sb strings.Builder
+	for _, s := range m.Stored {
+		sb.WriteString(s.Name)
+		sb.WriteByte(',')
+	}
+	return sb.String()
+}
+
+// c05Model runs the plan on the reference model. Put of an over-long CID fails and stores
+// nothing. A PutMany batch holding an over-long CID fails; which of the batch's other blocks
+// it stores is not documented, so both "those before the refused one" and "none of the batch"
+// are accepted.
+func c05Model(cfg model.Cfg, blks []kit.Blk, steps []drv.PlanStep, split int) *c05Expect {
+	e := &c05Expect{cands: []*model.Map{{Cfg: cfg}}}
+	pos := 0
+	for si, s := range steps {
+		if si == split {
+			e.gen1 = cloneMap(e.cands[0])
+		}
+		batch := blks[pos : pos+s.N]
+		pos += s.N
+		var next []*model.Map
+		seen := map[string]bool{}
+		add := func(m *model.Map) {
+			if k := storedKey(m); !seen[k] {
+				seen[k] = true
+				next = append(next, m)
+			}
+		}
+		wantErr := false
+		for _, c := range e.cands {
+			before := cloneMap(c)
+			failed := false
+			for _, b := range batch {
+				r := c.Put(b)
+				if r == model.PutSkipped {
+					e.deduped = true
+				}
+				if r == model.PutTooLarge {
+					failed = true
+					break
+				}
+			}
+			add(c)
+			if failed {
+				wantErr = true
+				if s.Many {
+					add(before)
+				}
+			}
+		}
+		e.cands = next
+		e.callErr = append(e.callErr, wantErr)
+	}
+	if split == len(steps) {
+		e.gen1 = cloneMap(e.cands[0])
+	}
+	return e
+}
+
+// sessionOf maps the case to the driver's kind and plan.
+func (cs C05Case) sessionOf() (kind string, steps []drv.PlanStep, split int, err error) {
+	kind = cs.Writer
+	steps, split, err = drv.ParsePlan(cs.Plan)
+	if err != nil {
+		return
+	}
+	if cs.Writer == "bsmany" {
+		kind = "bs"
+		if cs.Plan == "" {
+			steps = []drv.PlanStep{{Many: true, N: len(cs.Seq)}}
+		}
+	}
+	if steps == nil {
+		steps = []drv.PlanStep{}
+		for range cs.Seq {
+			steps = append(steps, drv.PlanStep{N: 1})
+		}
+	}
+	if drv.PlanLen(steps) != len(cs.Seq) {
+		err = fmt.Errorf("plan %q does not consume the %d blocks of the history", cs.Plan, len(cs.Seq))
+	}
+	return
+}
+
+func runC05(c any, x *kit.Ctx) {
+	cs := c.(C05Case)
+	if cs.CLI != nil {
+		runC05CLI(cs, x)
+		return
+	}
+	roots, rootRaws, nilRoots := kit.Roots(cs.Roots)
+	blks := kit.Bs(cs.Seq)
+	kind, steps, split, err := cs.sessionOf()
+	if err != nil {
+		panic(err)
+	}
+	resumed := kind == "bs-resume" || kind == "st-resume"
+	if resumed && split < 0 {
+		panic("resumed session without a split in its plan")
+	}
+	e := c05Model(modelCfg(cs.Opts), blks, steps, split)
 	if strings.HasPrefix(cs.Writer, "def-") && len(blks) == 0 {
 		return // nothing is created before the first Put (C20)
 	}
-	res, err := drv.Write(cs.Writer, x.Dir, roots, blks, cs.Opts)
+	res, err := drv.WriteSession(kind, x.Dir, roots, blks, cs.Opts, steps, split, cs.Reads)
 	x.Eval(1)
-	x.Transition(len(blks) + 2)
+	x.Transition(len(steps) + 2)
 	if err != nil {
 		x.Fail("c05:open:"+cs.Writer, "writer construction failed: %v", err)
 		return
 	}
-	if res.ManyErr != nil {
-		x.Fail("c05:putmany-error", "PutMany failed: %v", res.ManyErr)
+	for i, call := range res.Calls {
+		if (call.Err != nil) == e.callErr[i] {
+			continue
+		}
+		if call.Many {
+			x.Fail("c05:putmany-error", "PutMany #%d (%v) returned %v, model expects error=%v", i, cs.Seq[call.From:call.To], call.Err, e.callErr[i])
+		} else {
+			x.Fail("c05:put-error", "Put #%d (%s) returned %v, model expects error=%v", i, cs.Seq[call.From], call.Err, e.callErr[i])
+		}
 		return
 	}
-	for i, e := range res.PutErrs {
-		if (e != nil) != wantErr[i] {
-			x.Fail("c05:put-error", "Put #%d (%s) returned %v, model expects error=%v", i, cs.Seq[i], e, wantErr[i])
-			return
-		}
+	if res.Gen1Err != nil {
+		x.Fail("c05:finalize-error:"+cs.Writer, "Finalize of the first generation failed: %v", res.Gen1Err)
+		return
 	}
 	if res.FinErr != nil {
 		x.Fail("c05:finalize-error:"+cs.Writer, "Finalize failed: %v", res.FinErr)
 		return
 	}
-	v1 := cs.Opts.V1 || drv.V1Only(cs.Writer)
+	v1 := cs.Opts.V1 || drv.SessionV1Only(kind)
 	tag := "v2"
 	if v1 {
 		tag = "v1"
 	}
-	stored := m.RefBlocks()
+	// after a refused PutMany more than one final store is acceptable: take the one on disk
+	chosen := e.cands[0]
+	if len(e.cands) > 1 {
+		got := res.Bytes
+		if !v1 {
+			if f, err := refcar.DecodeFile(res.Bytes, false); err == nil {
+				got = f.PayloadRaw
+			}
+		}
+		for _, cand := range e.cands {
+			if bytes.Equal(got, refcar.EncodeV1(rootRaws, nilRoots, cand.RefBlocks())) {
+				chosen = cand
+				break
+			}
+		}
+	}
+	stored := chosen.RefBlocks()
 	checkFinalized(x, res.Bytes, rootRaws, nilRoots, stored, cs.Opts, v1, tag)
 	if !x.Failed() {
-		checkAccepted(x, res.Bytes, rootRaws, stored, tag)
+		checkAccepted(x, res.Bytes, rootRaws, stored, cs.Opts.StoreID, tag)
+	}
+	if kind == "bs-fro" {
+		if !bytes.Equal(res.PreClose, res.Bytes) {
+			x.Fail("c05:fro-close-changed:"+tag, "the file after FinalizeReadOnly (%d bytes) differs from the file after Close (%d bytes)", len(res.PreClose), len(res.Bytes))
+		}
+		if res.CloseErr != nil {
+			x.Fail("c05:fro-close-error:"+tag, "Close after FinalizeReadOnly failed: %v", res.CloseErr)
+		}
+	}
+	if resumed && e.gen1 != nil && !x.Failed() {
+		g1 := e.gen1.RefBlocks()
+		checkFinalized(x, res.Gen1, rootRaws, nilRoots, g1, cs.Opts, v1, tag+":gen1")
+		if !x.Failed() {
+			checkAccepted(x, res.Gen1, rootRaws, g1, cs.Opts.StoreID, tag+":gen1")
+		}
 	}
 	x.State(fmt.Sprintf("%x", res.Bytes))
 	x.Outcome(fmt.Sprintf("%s stored=%d", tag, len(stored)))
-	if deduped || len(stored) >= 2 {
-		x.Nontrivial(fmt.Sprintf("%v|%v|%+v", cs.Roots, cs.Seq, cs.Opts))
+	refused := false
+	for _, w := range e.callErr {
+		refused = refused || w
+	}
+	if refused {
+		x.Count("sessions_with_refused_put", 1)
+	}
+	if e.deduped || refused || len(stored) >= 2 {
+		x.Nontrivial(fmt.Sprintf("%v|%v|%+v|%s|%s|%v", cs.Roots, cs.Seq, cs.Opts, cs.Writer, cs.Plan, cs.Reads))
 	}
 }
 
+// allPlans enumerates every partition of n blocks into consecutive writing calls, each
+// singleton being a Put or a PutMany of one ("p", "m1"), longer parts a PutMany.
+func allPlans(n int) []string {
+	if n == 0 {
+		return []string{"", "m0"}
+	}
+	var out []string
+	var rec func(left int, cur []string)
+	rec = func(left int, cur []string) {
+		if left == 0 {
+			out = append(out, strings.Join(cur, ","))
+			return
+		}
+		for k := 1; k <= left; k++ {
+			rec(left-k, append(append([]string{}, cur...), fmt.Sprintf("m%d", k)))
+			if k == 1 {
+				rec(left-k, append(append([]string{}, cur...), "p"))
+			}
+		}
+	}
+	rec(n, nil)
+	return out
+}
+
+// mixedPlans are the plans that are neither all-Put (writer "bs") nor one PutMany ("bsmany").
+func mixedPlans(n int) []string {
+	var out []string
+	for _, p := range allPlans(n) {
+		if p == "" || p == fmt.Sprintf("m%d", n) && n > 0 || p == strings.TrimSuffix(strings.Repeat("p,", n), ",") {
+			continue
+		}
+		out = append(out, p)
+	}
+	return out
+}
+
+// resumePlans splits the history after k blocks; each generation is all-Put or one PutMany.
+func resumePlans(n int, many bool) []string {
+	var out []string
+	gen := func(k int) string {
+		if k == 0 {
+			return ""
+		}
+		if many {
+			return fmt.Sprintf("m%d", k)
+		}
+		return strings.TrimSuffix(strings.Repeat("p,", k), ",")
+	}
+	for k := 0; k <= n; k++ {
+		out = append(out, gen(k)+"|"+gen(n-k))
+	}
+	return out
+}
+
 func genC05(tier string, emit func(any)) {
+	thorough := tier == "thorough"
 	names := []string{"a", "b", "e", "a'", "a0", "i", "ia", "s", "t"}
 	maxLen := 2
 	dps := []uint64{0, 1, 1413}
 	ips := []uint64{0, 1, 7}
 	rootsets := []string{"a", "nil", "ab"}
-	if tier == "thorough" {
+	// root sets on the short histories only: header >= 128 bytes (abs), duplicate roots,
+	// a 68-byte root, an identity root, no roots, a CIDv0 root
+	extraRootsets := []string{"abs", "aa", "s", "i", "empty", "a0"}
+	if thorough {
 		names = append(names, "k", "i0", "ip1", "ip2")
 		maxLen = 3
 		rootsets = []string{"a", "nil", "empty", "ab", "a0"}
+		extraRootsets = []string{"abs", "aa", "s", "i"}
 	}
 	var seqs [][]string
 	kit.Seqs(names, maxLen, func(s []string) { seqs = append(seqs, s) })
 	for _, l := range []string{"L127", "L128", "L16383", "L16384"} {
 		seqs = append(seqs, []string{l}, []string{"a", l, "b"})
 	}
-	if tier == "thorough" {
+	if thorough {
 		seqs = append(seqs, []string{"L2097151"}, []string{"L2097152", "a"})
+	} else {
+		// the thorough-only alphabet blocks (empty-digest identity CID, identity CIDs differing
+		// late in the digest, blake2b) on a few fixed histories
+		seqs = append(seqs, []string{"i0"}, []string{"k"}, []string{"i0", "a"}, []string{"i", "i0"}, []string{"ip1", "ip2"}, []string{"ip2", "ip1"}, []string{"k", "a"}, []string{"ip1", "i0", "ip2"})
 	}
-	writers := []string{"bs", "st-rw", "st-w", "def-path", "bsmany"}
-	for _, sq := range seqs {
-		for ri, rs := range rootsets {
-			// all paddings/codecs with the first root set; other root sets with a reduced matrix
-			for _, dp := range dps {
-				for _, ip := range ips {
-					if ri > 0 && (dp == 1 || ip == 1) {
-						continue
-					}
-					for _, codec := range []string{"", "sorted"} {
-						for _, sid := range []bool{false, true} {
-							for _, w := range writers {
-								if w == "bsmany" && (ri > 0 || dp != 0 || ip != 0) {
-									continue
-								}
-								emit(C05Case{Roots: rs, Seq: sq, Opts: drv.Opts{DataPad: dp, IndexPad: ip, Codec: codec, StoreID: sid}, Writer: w})
+	short := func(sq []string) bool {
+		if thorough {
+			return len(sq) <= 2
+		}
+		return len(sq) <= 1 || strings.HasPrefix(sq[0], "L") || (len(sq) == 3 && strings.HasPrefix(sq[1], "L")) || (len(sq) == 2 && sq[0] == "a" && (sq[1] == "b" || sq[1] == "ia" || sq[1] == "a'"))
+	}
+	// the matrix of one (history, root set); full = every padding pair; v1pad = CARv1 mode with
+	// non-zero paddings on every front-end (always with full)
+	matrix := func(sq []string, rs string, full, v1pad bool) {
+		for _, dp := range dps {
+			for _, ip := range ips {
+				if !full && (dp == 1 || ip == 1) {
+					continue
+				}
+				for _, codec := range []string{"", "sorted"} {
+					for _, sid := range []bool{false, true} {
+						for _, w := range []string{"bs", "st-rw", "st-w", "def-path", "bsmany"} {
+							if w == "bsmany" && !full && !(dp == 0 && ip == 0) && !(dp == 1413 && ip == 7) {
+								continue
 							}
-						}
-					}
-				}
-			}
-			// CARv1 mode (paddings and codec are irrelevant but one non-zero set is kept)
-			for _, sid := range []bool{false, true} {
-				for _, w := range []string{"bs", "st-rw", "st-w", "st-stream", "def-path", "def-stream"} {
-					emit(C05Case{Roots: rs, Seq: sq, Opts: drv.Opts{V1: true, StoreID: sid}, Writer: w})
-				}
-				emit(C05Case{Roots: rs, Seq: sq, Opts: drv.Opts{V1: true, StoreID: sid, DataPad: 7, IndexPad: 3}, Writer: "bs"})
-			}
-			// de-duplication options
-			for _, whole := range []bool{false, true} {
-				for _, dup := range []bool{false, true} {
-					if !whole && !dup {
-						continue
-					}
-					for _, w := range []string{"bs", "st-rw"} {
-						emit(C05Case{Roots: rs, Seq: sq, Opts: drv.Opts{Whole: whole, AllowDup: dup, StoreID: true, DataPad: 1}, Writer: w})
-						if tier == "thorough" {
-							emit(C05Case{Roots: rs, Seq: sq, Opts: drv.Opts{Whole: whole, AllowDup: dup, Codec: "sorted"}, Writer: w})
+							emit(C05Case{Roots: rs, Seq: sq, Opts: drv.Opts{DataPad: dp, IndexPad: ip, Codec: codec, StoreID: sid}, Writer: w})
 						}
 					}
 				}
 			}
 		}
+		// CARv1 mode (paddings and codec are irrelevant: zero and one non-zero set)
+		for _, sid := range []bool{false, true} {
+			for _, w := range []string{"bs", "st-rw", "st-w", "st-stream", "def-path", "def-stream", "bsmany"} {
+				emit(C05Case{Roots: rs, Seq: sq, Opts: drv.Opts{V1: true, StoreID: sid}, Writer: w})
+			}
+			emit(C05Case{Roots: rs, Seq: sq, Opts: drv.Opts{V1: true, StoreID: sid, DataPad: 7, IndexPad: 3}, Writer: "bs"})
+			// the stream writer makes itself CARv1: no explicit WriteAsCarV1
+			emit(C05Case{Roots: rs, Seq: sq, Opts: drv.Opts{StoreID: sid}, Writer: "def-stream"})
+		}
+		if full || v1pad {
+			for _, w := range []string{"st-rw", "st-w", "st-stream", "def-path", "def-stream", "bsmany"} {
+				emit(C05Case{Roots: rs, Seq: sq, Opts: drv.Opts{V1: true, DataPad: 7, IndexPad: 3}, Writer: w})
+			}
+			emit(C05Case{Roots: rs, Seq: sq, Opts: drv.Opts{DataPad: 7, IndexPad: 3, Codec: "sorted"}, Writer: "def-stream"})
+		}
+		// de-duplication options
+		for _, whole := range []bool{false, true} {
+			for _, dup := range []bool{false, true} {
+				if !whole && !dup {
+					continue
+				}
+				for _, w := range []string{"bs", "st-rw", "bsmany"} {
+					emit(C05Case{Roots: rs, Seq: sq, Opts: drv.Opts{Whole: whole, AllowDup: dup, StoreID: true, DataPad: 1}, Writer: w})
+					if thorough {
+						emit(C05Case{Roots: rs, Seq: sq, Opts: drv.Opts{Whole: whole, AllowDup: dup, Codec: "sorted"}, Writer: w})
+					}
+				}
+			}
+		}
 	}
+	for _, sq := range seqs {
+		for ri, rs := range rootsets {
+			matrix(sq, rs, ri == 0, !thorough)
+		}
+		if short(sq) {
+			for _, rs := range extraRootsets {
+				matrix(sq, rs, false, true)
+			}
+		}
+	}
+
+	// refused puts: MaxIndexCidSize = 40 refuses "s" (68-byte CID) and "X" (64-byte identity CID)
+	var xseqs [][]string
+	kit.Seqs(append(append([]string{}, names...), "X"), maxLen, func(s []string) { xseqs = append(xseqs, s) })
+	for _, sq := range xseqs {
+		for _, rs := range []string{"a", "nil"} {
+			if rs != "a" && len(sq) > 2 {
+				continue
+			}
+			for _, sid := range []bool{false, true} {
+				for _, w := range []string{"bs", "bsmany", "st-rw", "st-w", "def-path"} {
+					emit(C05Case{Roots: rs, Seq: sq, Opts: drv.Opts{MaxCid: 40, StoreID: sid}, Writer: w})
+					emit(C05Case{Roots: rs, Seq: sq, Opts: drv.Opts{MaxCid: 40, StoreID: sid, DataPad: 1, IndexPad: 7, Codec: "sorted"}, Writer: w})
+				}
+				for _, w := range []string{"bs", "bsmany", "st-stream", "def-stream"} {
+					emit(C05Case{Roots: rs, Seq: sq, Opts: drv.Opts{MaxCid: 40, StoreID: sid, V1: true}, Writer: w})
+				}
+			}
+		}
+	}
+
+	// call plans mixing Put and PutMany (blockstore), on a reduced option matrix
+	planOpts := []drv.Opts{
+		{}, {DataPad: 1413, IndexPad: 7, Codec: "sorted"}, {StoreID: true}, {StoreID: true, DataPad: 1, Whole: true},
+		{StoreID: true, AllowDup: true}, {Whole: true, AllowDup: true, Codec: "sorted"}, {V1: true}, {V1: true, StoreID: true},
+		{MaxCid: 40, StoreID: true}, {MaxCid: 40, IndexPad: 1},
+	}
+	for _, sq := range seqs {
+		for _, plan := range mixedPlans(len(sq)) {
+			for _, o := range planOpts {
+				emit(C05Case{Roots: "a", Seq: sq, Opts: o, Writer: "bs", Plan: plan})
+			}
+			emit(C05Case{Roots: "abs", Seq: sq, Opts: drv.Opts{StoreID: true, DataPad: 1}, Writer: "bs", Plan: plan})
+			emit(C05Case{Roots: "nil", Seq: sq, Opts: drv.Opts{Codec: "sorted"}, Writer: "bs", Plan: plan})
+		}
+	}
+
+	// other finalize entry points: FinalizeReadOnly then Close; a caller-owned file
+	entryOpts := []drv.Opts{{}, {DataPad: 1413, IndexPad: 7, Codec: "sorted", StoreID: true}, {V1: true}, {StoreID: true, Whole: true, IndexPad: 1}}
+	for _, sq := range seqs {
+		for _, o := range entryOpts {
+			for _, w := range []string{"bs-fro", "bsf"} {
+				emit(C05Case{Roots: "a", Seq: sq, Opts: o, Writer: w})
+			}
+		}
+		emit(C05Case{Roots: "abs", Seq: sq, Opts: drv.Opts{DataPad: 1, StoreID: true}, Writer: "bs-fro"})
+		if len(sq) >= 2 {
+			emit(C05Case{Roots: "a", Seq: sq, Opts: drv.Opts{StoreID: true}, Writer: "bs-fro", Plan: fmt.Sprintf("m%d", len(sq))})
+			emit(C05Case{Roots: "a", Seq: sq, Opts: drv.Opts{StoreID: true}, Writer: "bsf", Plan: fmt.Sprintf("m%d", len(sq))})
+		}
+	}
+
+	// reads interleaved with the puts (every read entry point after every writing call)
+	readOpts := []drv.Opts{{}, {DataPad: 1, IndexPad: 1, StoreID: true}, {V1: true, StoreID: true}}
+	for _, sq := range seqs {
+		if len(sq) == 0 {
+			continue
+		}
+		for _, o := range readOpts {
+			for _, w := range []string{"bs", "st-rw", "st-w", "def-path", "bs-fro", "bsmany"} {
+				emit(C05Case{Roots: "a", Seq: sq, Opts: o, Writer: w, Reads: true})
+			}
+			if o.V1 {
+				emit(C05Case{Roots: "a", Seq: sq, Opts: o, Writer: "st-stream", Reads: true})
+				emit(C05Case{Roots: "a", Seq: sq, Opts: o, Writer: "def-stream", Reads: true})
+			}
+		}
+		emit(C05Case{Roots: "abs", Seq: sq, Opts: drv.Opts{Codec: "sorted", Whole: true}, Writer: "bs", Reads: true})
+		emit(C05Case{Roots: "abs", Seq: sq, Opts: drv.Opts{Codec: "sorted", Whole: true}, Writer: "st-rw", Reads: true})
+	}
+
+	// sessions resumed after a Finalize with the same roots and options
+	resumeOpts := []drv.Opts{{}, {DataPad: 1413, IndexPad: 7, Codec: "sorted", StoreID: true}, {V1: true, StoreID: true}}
+	if !thorough {
+		resumeOpts = append(resumeOpts, drv.Opts{StoreID: true, AllowDup: true, IndexPad: 1})
+	}
+	for _, sq := range seqs {
+		for _, rs := range []string{"a", "abs"} {
+			if rs != "a" && !short(sq) {
+				continue
+			}
+			for _, o := range resumeOpts {
+				for _, plan := range resumePlans(len(sq), false) {
+					emit(C05Case{Roots: rs, Seq: sq, Opts: o, Writer: "bs-resume", Plan: plan})
+					emit(C05Case{Roots: rs, Seq: sq, Opts: o, Writer: "st-resume", Plan: plan})
+				}
+				if len(sq) >= 2 {
+					for _, plan := range resumePlans(len(sq), true) {
+						emit(C05Case{Roots: rs, Seq: sq, Opts: o, Writer: "bs-resume", Plan: plan})
+					}
+				}
+			}
+		}
+	}
+
+	genC05CLI(tier, emit)
 }
 
 func init() {
@@ -274,14 +730,38 @@ func init() {
 		Gen:    genC05,
 		Run:    runC05,
 		Decode: kit.DecodeAs[C05Case],
-		Rule: "every put history up to the bound over the block alphabet x roots x data padding x index padding x index codec x StoreIdentityCIDs x WriteAsCarV1 x de-dup options x writer front-end; " +
-			"each session is run on the real writer and its bytes are decoded by the independent reference decoder; non-trivial = history with >=2 stored blocks or in which de-duplication fired (distinct by history+options)",
+		Setup:  func(string) error { return drv.BuildCar() },
+		Rule: "every put history up to the bound over the block alphabet x roots x data padding x index padding x index codec x StoreIdentityCIDs x WriteAsCarV1 x de-dup options x writer front-end " +
+			"(blockstore Put / one PutMany, storage on a ReaderAt+WriterAt / WriterAt-only file / plain stream, deferred writer for path / stream with and without an explicit WriteAsCarV1); plus, on stated reduced option matrices: " +
+			"MaxIndexCidSize=40 histories containing refused puts (alphabet + X); every partition of the history into Put/PutMany calls; FinalizeReadOnly+Close and OpenReadWriteFile; every read entry point interleaved after every writing call; " +
+			"sessions finalized, resumed with the same roots/options and finalized again (both generations checked); root sets with a >=128-byte header, duplicate, 68-byte and identity roots on the short histories; " +
+			"CLI producers run with the real car binary: create (5 trees x v1/v2 x --no-wrap), filter (inputs x containers x selections x v1/v2/--append onto 7 existing layouts), get-dag (every start node x v1/v2 x containers x block order). " +
+			"Each session's bytes are decoded by the independent reference decoder (layout, payload, index records, flags), read back by the library (Inspect(true) header/roots/codec/count vs the reference decoder, index.ReadFrom+GetAll offsets of every stored CID, read-only blockstore Get of every stored CID) and given to lib.VerifyCar when every root is stored; " +
+			"non-trivial = session with >=2 stored blocks or in which de-duplication or a refusal fired (distinct by history+options+writer+plan)",
 		Bound: func(tier string) map[string]any {
-			if tier == "thorough" {
-				return map[string]any{"history_len": 3, "alphabet": 11, "data_padding": []int{0, 1, 1413}, "index_padding": []int{0, 1, 7}}
+			b := map[string]any{
+				"data_padding": []int{0, 1, 1413}, "index_padding": []int{0, 1, 7},
+				"root_sets_full": []string{"a", "nil", "ab"}, "root_sets_short_histories": []string{"abs", "aa", "s", "i", "empty", "a0"},
+				"history_len": 2, "alphabet": 9, "alphabet_fixed_histories": []string{"i0", "k", "ip1", "ip2", "L127", "L128", "L16383", "L16384"},
+				"max_index_cid_size": []int{0, 40}, "plans_per_len": []int{len(mixedPlans(0)), len(mixedPlans(1)), len(mixedPlans(2)), len(mixedPlans(3))},
+				"writer_kinds": []string{"bs", "bsmany", "bs+plan", "bs-fro", "bsf", "bs-resume", "st-rw", "st-w", "st-stream", "st-resume", "def-path", "def-stream", "cli:create", "cli:filter", "cli:get-dag"},
 			}
-			return map[string]any{"history_len": 2, "alphabet": 9, "data_padding": []int{0, 1, 1413}, "index_padding": []int{0, 1, 7}}
+			if tier == "thorough" {
+				b["history_len"] = 3
+				b["alphabet"] = 13
+				b["alphabet_fixed_histories"] = []string{"L127", "L128", "L16383", "L16384", "L2097151", "L2097152"}
+				b["root_sets_full"] = []string{"a", "nil", "empty", "ab", "a0"}
+				b["root_sets_short_histories"] = []string{"abs", "aa", "s", "i"}
+			}
+			return b
 		},
-		Assumptions: []string{"refcar (reference codec) is correct", "blocks outside the alphabet behave like some block inside it"},
+		Assumptions: []string{
+			"refcar (reference codec) is correct",
+			"blocks outside the alphabet behave like some block inside it",
+			"option sets outside the full matrix (de-dup options, MaxIndexCidSize, call plans, finalize entry points, interleaved reads, resumed sessions, extra root sets, CLI producers) are crossed with the stated reduced matrices only",
+			"a PutMany that returns ErrCidTooLarge may have stored either the batch's blocks before the refused one or none of the batch (undocumented); both are accepted",
+			"resumed sessions use the same roots and options in both generations and resume only finalized files (other combinations: C06, C12)",
+			"CLI create: the expected sections are taken from the decoded output itself (UnixFS encoding is C18's subject), so only layout, index, flags and acceptance are checked there",
+		},
 	})
 }
